@@ -841,7 +841,16 @@ class Executor:
             v = self.operand(st, fid, rv.a[0], fn)
             return VStruct("[array]", [v] * int(m.group(1)))
         if k == "closure":
-            return VStruct(rv.a[0], [self.operand(st, fid, o, fn) for o in rv.a[1]])
+            ops = list(rv.a[1])
+            body = self.mir.closures.get(rv.a[0])
+            if body is not None and getattr(body, "parsed", False):
+                need = self._closure_arity(body)
+                if need > len(ops):
+                    # rustc's MIR printer zips captures with upvar *variables*, so disjoint captures of one
+                    # variable are printed once; recover the operand list from the dead temporaries that
+                    # were built for the aggregate (checked against the capture types of the closure body)
+                    ops = self._recover_captures(fn, need, body)
+            return VStruct(rv.a[0], [self.operand(st, fid, o, fn) for o in ops])
         if k == "adt":
             path = strip_generics(rv.a[0])
             segs = path.split("::")
@@ -859,6 +868,45 @@ class Executor:
             if isinstance(v, VStruct) and v.name == "[array]":
                 return VInt(I(len(v.f)), "usize")
         raise Unsupported("rvalue " + k)
+
+    def _closure_arity(self, body):
+        mx = -1
+        for bb in body.order:
+            blk = body.blocks[bb]
+            for stmt in blk.stmts:
+                for pl in _stmt_places(stmt):
+                    if pl.local == "_1":
+                        for p in pl.proj:
+                            if p[0] == "deref":
+                                continue
+                            if p[0] == "field":
+                                mx = max(mx, p[1])
+                            break
+        return mx + 1
+
+    def _recover_captures(self, fn, need, body):
+        cfn, bb, si = self._cur
+        uses = {}
+        for b in cfn.order:
+            blk = cfn.blocks[b]
+            for stmt in blk.stmts:
+                for pl in _stmt_places(stmt, reads_only=True):
+                    uses[pl.local] = uses.get(pl.local, 0) + 1
+            t = blk.term
+            for o in _term_operands(t):
+                if o.place is not None:
+                    uses[o.place.local] = uses.get(o.place.local, 0) + 1
+        blk = cfn.blocks[bb]
+        cands = []
+        for stmt in blk.stmts[:si]:
+            if stmt.kind == "assign" and not stmt.place.proj and stmt.rv.kind == "ref":
+                loc = stmt.place.local
+                if uses.get(loc, 0) <= 1:
+                    cands.append(loc)
+        cands = cands[-need:]
+        if len(cands) != need:
+            raise Unsupported("cannot recover the %d captures of closure (MIR printer shows fewer)" % need)
+        return [Operand("move", Place(c)) for c in cands]
 
     # ---- function execution
     def exec_fn(self, fn, args, st, K=None, entry=None, stops=(), init=None, keep_frame=False):
@@ -907,8 +955,9 @@ class Executor:
             self.cur_fn = fn.name
             blk = fn.blocks[bb]
             where = "%s/%s" % (fn.name, bb)
-            for stmt in blk.stmts:
+            for si, stmt in enumerate(blk.stmts):
                 if stmt.kind == "assign":
+                    self._cur = (fn, bb, si)
                     v = self.rvalue(s, fid, stmt.rv, fn)
                     self.write_place(s, fid, stmt.place, v)
                 elif stmt.kind == "setdiscr":
@@ -1044,6 +1093,39 @@ class Executor:
         if target:
             return self.find_fn(target)
         return None
+
+
+def _stmt_places(stmt, reads_only=False):
+    out = []
+    if stmt.place is not None and not reads_only:
+        out.append(stmt.place)
+    elif stmt.place is not None and stmt.place.proj:
+        out.append(stmt.place)
+
+    def walk(x):
+        if isinstance(x, Place):
+            out.append(x)
+        elif isinstance(x, Operand):
+            if x.place is not None:
+                out.append(x.place)
+        elif isinstance(x, (list, tuple)):
+            for y in x:
+                walk(y)
+    if isinstance(stmt.rv, Rvalue):
+        walk(stmt.rv.a)
+    return out
+
+
+def _term_operands(t):
+    out = []
+    if t is None:
+        return out
+    for k in ("op", "cond"):
+        if k in t.a and isinstance(t.a[k], Operand):
+            out.append(t.a[k])
+    for o in t.a.get("args", []) or []:
+        out.append(o)
+    return out
 
 
 # ----------------------------------------------------------------- list helpers
